@@ -8,11 +8,19 @@ the positive phase only, and each value lands on the parameter it belongs to. Wi
 therefore move by exactly minus the learning rate times that gradient, once per batch, and a learning-rate
 scheduler is advanced exactly once per epoch."
 
-Model: QV.Model.CDStep (+ Grads). The chain end states `vk` are the result of `gibbs_steps` (property C05);
-that the scheduler is stepped once per epoch is part of the event-protocol model (C12_scheduler_once_per_epoch).
+Model: QV.Model.CDStep (+ Grads, Prob). The chain end states `vk` are the result of `gibbs_steps(k, neg_batch)`:
+`cdGradAm`/`cdStep…` are programs over the block-Gibbs sampler of property C05 STARTED FROM THE NEGATIVE BATCH
+(`C06_chain…`: k = 0 returns the negative batch itself; the expected gradient is the positive phase minus the mean
+over the negative rows of the `k`-step kernel's expectation of the energy gradient, `rbmP ^ k` being C05's kernel);
+`C06_batch_grad` etc. are the statements for given chain end states. Whole runs: `foldRun`/`foldTrace`
+(`C06_history`, `C06_run_unfold…`); learning-rate schedule per epoch: `tagEpochs`, `lrAfter` (`C06_scheduler_lr`,
+`C06_steplr`). That the scheduler is stepped once per epoch AS AN EVENT is part of the event-protocol model
+(C12_scheduler_once_per_epoch); here it shows as the learning rate in force in each epoch.
 -/
 import QV.Model.CDStep
 import QV.Lemmas.GradLin
+import QV.Lemmas.CDChain
+import QV.Props.C05
 import Mathlib.Data.List.Basic
 
 namespace QV.Props
@@ -116,11 +124,211 @@ theorem C06_run_unfold (lr : ℝ) (am0 : RBM ℝ n h)
     runPos lr am0 (bs ++ [b]) = (stepPos lr (runPos lr am0 bs) b.1.2 b.2.2).2 := by
   simp [runPos, List.foldl_append]
 
+/-! ## Gap-closing round: the chain starts from the negative batch (C06-1) -/
+
+section chain
+variable {α : Type} [Add α] [Mul α] [Neg α] [Sub α] [Div α] [Zero α] [One α] [Transc α]
+
+/-- **C06.1c** `k = 0`: no sampling at all; the chain end states ARE the negative batch and the gradient is the
+positive phase minus the mean energy gradient of the negative-batch rows themselves (any carrier). -/
+theorem C06_chain_zero (pp am : RBM α n h) (ppd amd : PRBM α n h a) {M : ℕ} (neg : Fin M → Fin n → Bool) :
+    cdGradAm pp am 0 neg = Prog.ret (neg, batchGradAm pp am (bmat neg))
+    ∧ cdGradAmDM ppd amd 0 neg = Prog.ret (neg, batchGradAmDM ppd amd (bmat neg)) := ⟨rfl, rfl⟩
+
+/-- **C06.1d** replay: an execution of the gradient program on recorded draws is an execution of
+`gibbs_steps(k, neg_batch)` (C05's batched sampler started from the negative batch) on the same draws — same
+probabilities presented, same leftover — and the gradient is `batchGradAm` at the chain end states it returns
+(any carrier: this is the statement the driver's Float replay instantiates). -/
+theorem C06_chain_run (pp am : RBM α n h) (ppd amd : PRBM α n h a) (k : ℕ) {M : ℕ} (neg : Fin M → Fin n → Bool)
+    (ds : List Bool) :
+    (cdGradAm pp am k neg).run ds
+        = ((am.gibbsStepsB k neg).run ds).map (fun x => ((x.1, batchGradAm pp am (bmat x.1)), x.2))
+    ∧ (cdGradAmDM ppd amd k neg).run ds
+        = ((amd.gibbsStepsB k neg).run ds).map (fun x => ((x.1, batchGradAmDM ppd amd (bmat x.1)), x.2)) :=
+  ⟨Prog.run_map _ _ _, Prog.run_map _ _ _⟩
+
+/-- **C06.1e** the full step programs are the `stepPos/stepCplx/stepDM` of the statements above evaluated at the end
+states of the chain started from the negative batch. -/
+theorem C06_chain_step (lr eps : α) (am ph : RBM α n h) (amd phd : PRBM α n h a) (dict : Char → M2 α)
+    (D : List (Sample n)) (k : ℕ) {B M : ℕ} (pos : Fin B → Fin n → α) (neg : Fin M → Fin n → Bool) :
+    cdStepPos lr am k pos neg = (am.gibbsStepsB k neg).map (fun vk => (vk, stepPos lr am pos (bmat vk)))
+    ∧ cdStepCplx lr am ph dict D k neg = (am.gibbsStepsB k neg).map (fun vk => (vk, stepCplx lr am ph dict D (bmat vk)))
+    ∧ cdStepDM lr eps amd phd dict D k neg
+        = (amd.gibbsStepsB k neg).map (fun vk => (vk, stepDM lr eps amd phd dict D (bmat vk))) := by
+  refine ⟨?_, ?_, ?_⟩ <;> simp only [cdStepPos, cdStepCplx, cdStepDM, cdGradAm, cdGradAmDM, Prog.map_map] <;> rfl
+
+end chain
+
+/-- **C06.1f (`C06_chain`)** the CD-`k` gradient in terms of the `k`-step chain FROM THE NEGATIVE BATCH: its expectation
+(pairing with any direction `d`) is the positive phase minus the mean, over the rows `neg m` of the negative batch, of
+the expectation of the energy gradient under row `neg m` of the `k`-th power of C05's Gibbs kernel.
+(Composes `C06_batch_grad` with `C05_batch_law` and `C05_k_step_law`.) -/
+theorem C06_chain (pp am d : RBM ℝ n h) (k : ℕ) {M : ℕ} (neg : Fin M → Fin n → Bool) :
+    (cdGradAm pp am k neg).expect (fun r => r.2.pair d)
+      = pp.pair d - (∑ m, ∑ w, (C05.rbmP am ^ k) (neg m) w * (am.effEnergyGrad1 (bvec w)).pair d) / M := by
+  rw [cdGradAm, Prog.expect_map]
+  simp only [C06_batch_grad]
+  rw [Prog.expect_sub_const_div, Prog.expect_finset_sum]
+  congr 2
+  refine Finset.sum_congr rfl (fun m _ => ?_)
+  have hlaw : ∀ ws, (am.gibbsStepsB k neg).law ws = ∏ b, (am.gibbsSteps k (neg b)).law (ws b) := by
+    intro ws
+    rw [C05.C05_batch_law]
+    simp only [C05.C05_k_step_law]
+  have hm := Prog.expect_batch_coord (am.gibbsStepsB k neg) (fun b => am.gibbsSteps k (neg b)) hlaw m
+    (fun w => (am.effEnergyGrad1 (bvec w)).pair d)
+  simp only [C05.C05_k_step_law] at hm
+  exact hm
+
+theorem C06_chain_prbm (pp am d : PRBM ℝ n h a) (k : ℕ) {M : ℕ} (neg : Fin M → Fin n → Bool) :
+    (cdGradAmDM pp am k neg).expect (fun r => r.2.pair d)
+      = pp.pair d - (∑ m, ∑ w, (C05.prbmP am ^ k) (neg m) w * (am.effEnergyGrad1 (bvec w)).pair d) / M := by
+  rw [cdGradAmDM, Prog.expect_map]
+  simp only [C06_batch_grad_prbm]
+  rw [Prog.expect_sub_const_div, Prog.expect_finset_sum]
+  congr 2
+  refine Finset.sum_congr rfl (fun m _ => ?_)
+  have hlaw : ∀ ws, (am.gibbsStepsB k neg).law ws = ∏ b, (am.gibbsSteps k (neg b)).law (ws b) := by
+    intro ws
+    rw [C05.C05_batch_law_purif]
+    simp only [C05.C05_k_step_law_purif]
+  have hm := Prog.expect_batch_coord (am.gibbsStepsB k neg) (fun b => am.gibbsSteps k (neg b)) hlaw m
+    (fun w => (am.effEnergyGrad1 (bvec w)).pair d)
+  simp only [C05.C05_k_step_law_purif] at hm
+  exact hm
+
+/-- **C06.1g** the law of the chain end states handed to the gradient: independent chains, chain `m` distributed as row
+`neg m` of `P ^ k` (so a chain started anywhere else — the positive batch, a persistent buffer — has another law). -/
+theorem C06_chain_law (pp am : RBM ℝ n h) (k : ℕ) {M : ℕ} (neg : Fin M → Fin n → Bool) (g : (Fin M → Fin n → Bool) → ℝ) :
+    (cdGradAm pp am k neg).expect (fun r => g r.1) = ∑ ws, (∏ m, (C05.rbmP am ^ k) (neg m) (ws m)) * g ws := by
+  rw [cdGradAm, Prog.expect_map, Prog.expect_eq_sum]
+  simp only [C05.C05_batch_law]
+
+/-- **C06.1h** why the chain must start where it does: if the rows of the negative batch are distributed as the model's
+reported distribution `π` (which the data approach as training converges), the expected negative phase of CD-`k` is, for
+EVERY `k`, the exact negative phase `Σ_w π(w) ∇E(w)` of `compute_exact_gradients` (C03): the `k`-step kernel leaves `π`
+invariant (C05_invariant_k). -/
+theorem C06_chain_stationary (am d : RBM ℝ n h) (amd dd : PRBM ℝ n h a) (Z : ℝ) (k : ℕ) :
+    (∑ v, C05.rbmPi am Z v * ∑ w, (C05.rbmP am ^ k) v w * (am.effEnergyGrad1 (bvec w)).pair d
+        = ∑ w, C05.rbmPi am Z w * (am.effEnergyGrad1 (bvec w)).pair d)
+    ∧ (∑ v, C05.prbmPi amd Z v * ∑ w, (C05.prbmP amd ^ k) v w * (amd.effEnergyGrad1 (bvec w)).pair dd
+        = ∑ w, C05.prbmPi amd Z w * (amd.effEnergyGrad1 (bvec w)).pair dd) := by
+  constructor
+  · have hinv := C05.C05_invariant_k am Z k
+    simp only [Finset.mul_sum]
+    rw [Finset.sum_comm]
+    refine Finset.sum_congr rfl (fun w _ => ?_)
+    have hw := congrFun hinv w
+    simp only [Matrix.vecMul, dotProduct] at hw
+    rw [← hw, Finset.sum_mul]
+    refine Finset.sum_congr rfl (fun v _ => by ring)
+  · have hinv := C05.C05_invariant_k_purif amd Z k
+    simp only [Finset.mul_sum]
+    rw [Finset.sum_comm]
+    refine Finset.sum_congr rfl (fun w _ => ?_)
+    have hw := congrFun hinv w
+    simp only [Matrix.vecMul, dotProduct] at hw
+    rw [← hw, Finset.sum_mul]
+    refine Finset.sum_congr rfl (fun v _ => by ring)
+
+/-! ## Gap-closing round: histories (C06-2) and the learning-rate schedule (C06-4) -/
+
+/-- **C06.3c** plain SGD on the purification RBM: every parameter (incl. `U`, `d`) moves by exactly `−lr · gradient`. -/
+theorem C06_sgd_step_dm (lr : ℝ) (p g : PRBM ℝ n h a) :
+    (∀ i j, (sgdStepDM lr p g).W i j = p.W i j - lr * g.W i j) ∧ (∀ k j, (sgdStepDM lr p g).U k j = p.U k j - lr * g.U k j)
+    ∧ (∀ j, (sgdStepDM lr p g).b j = p.b j - lr * g.b j) ∧ (∀ i, (sgdStepDM lr p g).c i = p.c i - lr * g.c i)
+    ∧ (∀ k, (sgdStepDM lr p g).d k = p.d k - lr * g.d k) :=
+  ⟨fun _ _ => rfl, fun _ _ => rfl, fun _ => rfl, fun _ => rfl, fun _ => rfl⟩
+
+/-- **C06.3d (history)** for any update rule: the recording of the parameters after every batch has exactly one entry per
+batch; entry `t` is ONE update, with batch `t`, applied to the fold of all earlier batches; that equals the fold over the
+first `t + 1` batches (so the parameters before batch `t + 1` are the parameters after batch `t`); the last entry is the
+result of the run. Instantiated below for the three state types. -/
+theorem C06_history {P β : Type} (step : P → β → P) (p0 : P) (bs : List β) :
+    (foldTrace step p0 bs).length = bs.length
+    ∧ (∀ t (ht : t < bs.length),
+        (foldTrace step p0 bs)[t]? = some (step (foldRun step p0 (bs.take t)) bs[t])
+        ∧ (foldTrace step p0 bs)[t]? = some (foldRun step p0 (bs.take (t + 1))))
+    ∧ ((foldTrace step p0 bs).getLast?).getD p0 = foldRun step p0 bs :=
+  ⟨foldTrace_length step p0 bs,
+   fun t ht => ⟨foldTrace_getElem? step p0 bs t ht, foldTrace_getElem?_eq_run step p0 bs t ht⟩,
+   foldTrace_getLast step p0 bs⟩
+
+/-- the driver materialises the (function-valued) parameter records into arrays after every update; any such
+normalisation that is extensionally the identity leaves the trace unchanged, so what the driver computes IS `foldTrace` -/
+theorem C06_trace_norm {P β : Type} (step : P → β → P) (norm : P → P) (hnorm : ∀ p, norm p = p) (p0 : P) (bs : List β) :
+    foldTrace (fun p b => norm (step p b)) p0 bs = foldTrace step p0 bs := by
+  have : (fun p b => norm (step p b)) = step := by funext p b; exact hnorm _
+  rw [this]
+
+/-- the run of the positive state (`runPos`, `C06_run_unfold`) is this fold with the constant learning rate -/
+theorem C06_runPos_fold (lr : ℝ) (am0 : RBM ℝ n h) (bs : List (PosBatch ℝ n)) :
+    runPos lr am0 bs = foldRun updPos am0 (bs.map fun b => (lr, b)) := by
+  simp only [runPos, foldRun, List.foldl_map, updPos]
+
+/-- **C06.3e** whole runs of the complex and the mixed state: batch `t`'s gradients (amplitude AND phase network) are
+evaluated at the result of all earlier updates of BOTH networks; one update per batch. -/
+theorem C06_run_unfold_cplx (lr : ℝ) (dict : Char → M2 ℝ) (am0 ph0 : RBM ℝ n h) (bs : List (SmpBatch ℝ n))
+    (b : SmpBatch ℝ n) :
+    runCplx lr dict am0 ph0 (bs ++ [b])
+        = (stepCplx lr (runCplx lr dict am0 ph0 bs).1 (runCplx lr dict am0 ph0 bs).2 dict b.1 b.2.2).2
+    ∧ (foldTrace (updCplx dict) (am0, ph0) ((bs ++ [b]).map fun x => (lr, x))).length = bs.length + 1 := by
+  refine ⟨?_, by simp [foldTrace_length]⟩
+  simp only [runCplx, List.map_append, List.map_cons, List.map_nil, foldRun_append]
+  rfl
+
+theorem C06_run_unfold_dm (lr eps : ℝ) (dict : Char → M2 ℝ) (am0 ph0 : PRBM ℝ n h a) (bs : List (SmpBatch ℝ n))
+    (b : SmpBatch ℝ n) :
+    runDM lr eps dict am0 ph0 (bs ++ [b])
+        = (stepDM lr eps (runDM lr eps dict am0 ph0 bs).1 (runDM lr eps dict am0 ph0 bs).2 dict b.1 b.2.2).2
+    ∧ (foldTrace (updDM dict eps) (am0, ph0) ((bs ++ [b]).map fun x => (lr, x))).length = bs.length + 1 := by
+  refine ⟨?_, by simp [foldTrace_length]⟩
+  simp only [runDM, List.map_append, List.map_cons, List.map_nil, foldRun_append]
+  rfl
+
+/-- **C06.4a** the learning rate in force: every batch of epoch `i` (0-based within one `fit` call) is processed with the
+rate obtained after exactly `i` scheduler steps — the scheduler is advanced once per epoch, after the epoch's batches —
+and the run has one update per batch of every epoch. -/
+theorem C06_scheduler_lr {β : Type} (next : ℕ → ℝ → ℝ) (lr0 : ℝ) (epochs : List (List β)) :
+    tagEpochs next lr0 0 epochs
+        = (List.range epochs.length).flatMap (fun i => (epochs.getD i []).map fun b => (lrAfter next lr0 i, b))
+    ∧ (tagEpochs next lr0 0 epochs).length = (epochs.map List.length).sum := by
+  refine ⟨?_, tagEpochs_length next lr0 0 epochs⟩
+  have := tagEpochs_eq next lr0 0 epochs
+  simpa [lrAfter] using this
+
+/-- **C06.4b** `StepLR(step_size = s, gamma)`: after `e` epochs the rate is `lr · gamma ^ ⌊e / s⌋` (`s = 1`: `lr · gamma ^ e`);
+without a scheduler it stays `lr`. -/
+theorem C06_steplr (gamma lr0 : ℝ) (s e : ℕ) :
+    lrAfter (stepLRNext gamma s) lr0 e = lr0 * gamma ^ (e / s)
+    ∧ lrAfter (stepLRNext gamma 1) lr0 e = lr0 * gamma ^ e
+    ∧ lrAfter noSched lr0 e = lr0 := by
+  refine ⟨lrAfter_stepLR gamma lr0 s e, ?_, ?_⟩
+  · simpa using lrAfter_stepLR gamma lr0 1 e
+  · induction e with
+    | zero => rfl
+    | succ e ih => simpa [lrAfter, noSched] using ih
+
+/-- **C06.4c** whole `fit` calls: one recorded update per batch of every epoch, for the three state types. -/
+theorem C06_fit_trace_length (next : ℕ → ℝ → ℝ) (lr0 eps : ℝ) (dict : Char → M2 ℝ) (am0 ph0 : RBM ℝ n h)
+    (amd phd : PRBM ℝ n h a) (ep : List (List (PosBatch ℝ n))) (es : List (List (SmpBatch ℝ n))) :
+    (fitTracePos next lr0 am0 ep).length = (ep.map List.length).sum
+    ∧ (fitTraceCplx next lr0 dict am0 ph0 es).length = (es.map List.length).sum
+    ∧ (fitTraceDM next lr0 eps dict amd phd es).length = (es.map List.length).sum := by
+  simp only [fitTracePos, fitTraceCplx, fitTraceDM, foldTrace_length, tagEpochs_length, and_self]
+
 /-- non-vacuity: a concrete step with `|neg| ≠ |pos|` -/
 example : let am : RBM ℝ 2 1 := ⟨fun _ _ => 0.5, fun _ => -0.25, fun _ => 1⟩
     ∀ d, (batchGradAm (positivePhasePos am (fun (_ : Fin 3) _ => 1)) am (fun (_ : Fin 2) _ => 0)).pair d
       = (positivePhasePos am (fun (_ : Fin 3) _ => 1)).pair d
         - (∑ m : Fin 2, (am.effEnergyGrad1 (fun _ => 0)).pair d) / (2 : ℕ) := by
   intro am d; exact C06_batch_grad _ _ _ _
+
+/-- non-vacuity of the schedule: 3 epochs of 2, 0 and 1 batches under `StepLR(1, 1/2)` from `lr = 8` -/
+example : tagEpochs (stepLRNext (1 / 2 : ℚ) 1) 8 0 [["a", "b"], [], ["c"]] = [(8, "a"), (8, "b"), (2, "c")] := by
+  simp [tagEpochs, stepLRNext]; norm_num
+
+/-- non-vacuity of the trace: integer "parameters", update = add the batch -/
+example : foldTrace (fun (p : ℤ) (b : ℤ) => p + b) 10 [1, 2, 3] = [11, 13, 16] := rfl
 
 end QV.Props
